@@ -909,6 +909,16 @@ Lemma source_store_pinned_lemma :
   vpgetinfo_length = "if((len=Hlength(f,DFTAG_VG,(uint16)ref))==FAIL)"%string /\
   vpackvg_size = "*size=(int32)(bb-buf)+1;"%string.
 Proof. repeat split; reflexivity. Qed.
+(** error paths and the tree under the tables: Vsetname / Vsetclass test the length BEFORE they release the old string
+    (a refused call changes nothing); tbbtrem redirects the thread of the surviving child also when that child has no
+    descendant on the side (Vgetid / VSgetid walk these threads); Vdelete removes the node, then the element *)
+Lemma source_errors_tree_pinned_lemma :
+  vsetname_order = "name_len=strlen(vgname);if(name_len>UINT16_MAX)HGOTO_ERROR(DFE_EXCEEDMAX,FAIL);free(vg->vgname);vg->vgname=(char*)malloc(name_len+1);if(vg->vgname==NULL)HGOTO_ERROR(DFE_NOSPACE,FAIL);HIstrncpy(vg->vgname,vgname,(int)name_len+1);vg->marked=TRUE;"%string /\
+  vsetclass_order = "classname_len=strlen(vgclass);if(classname_len>UINT16_MAX)HGOTO_ERROR(DFE_EXCEEDMAX,FAIL);free(vg->vgclass);vg->vgclass=(char*)malloc(classname_len+1);if(vg->vgclass==NULL)HGOTO_ERROR(DFE_NOSPACE,FAIL);HIstrncpy(vg->vgclass,vgclass,(int)classname_len+1);vg->marked=TRUE;"%string /\
+  tbbtrem_thread_same = "n=leaf->Link[side];par->Link[side]=n;n->Parent=par;if(HasChild(n,Other(side)))while(HasChild(n,Other(side)))n=n->Link[Other(side)];n->Link[Other(side)]=par;"%string /\
+  tbbtrem_thread_zigzag = "n=leaf->Link[Other(side)];par->Link[side]=n;n->Parent=par;if(HasChild(n,side))while(HasChild(n,side))n=n->Link[side];n->Link[side]=next;"%string /\
+  vdelete_order = "if((v=tbbtrem((TBBT_NODE**)vf->vgtree,(TBBT_NODE*)t,NULL))!=NULL)vdestroynode((void*)v);if(Hdeldd(f,DFTAG_VG,(uint16)vgid)==FAIL)"%string.
+Proof. repeat split; reflexivity. Qed.
 End Layout.
 
 (** a class lookup with an ordinary class name finds exactly the vdatas of that class: no prefix matching *)
@@ -989,4 +999,18 @@ Proof.
   replace (Nat.min (Z.to_nat (nattrs g)) (length (alist g))) with (Z.to_nat (nattrs g))
     by (rewrite Nl; unfold zlen; lia).
   cbn [length]. lia.
+Qed.
+
+
+(* ================================================================================================== *)
+(** * A refused call changes nothing (specification level) *)
+Ltac brk := repeat match goal with
+  | |- context [match ?x with _ => _ end] => destruct x eqn:?
+  | |- context [if ?x then _ else _] => destruct x eqn:?
+  end.
+Lemma spec_refused_changes_nothing_lemma : forall s o,
+  snd (VGraphSpec.step s o) = RFail -> fst (VGraphSpec.step s o) = s.
+Proof.
+  intros s o. destruct o; unfold VGraphSpec.step, insert_pair, edit_h, with_h, getid, enum_answer, ok0, okv, put_vg;
+    brk; cbn [fst snd]; intro H; try discriminate; try reflexivity.
 Qed.
